@@ -129,10 +129,14 @@ def handleC01 (j : Json) : Except String Verdict := do
         okSpec := false
         if why.isEmpty then why := s!"{k}: unexpected exception {outcome}"
       -- correspondence with the model, step by step from the implementation's own state
+      -- fibers declared with default None ("no empty value") are outside the model's default handling: for them
+      -- only the specification side (well-formedness after every step, rejected => unchanged) is evaluated
+      let noDefault := match j.getObjVal? "ndflt" with | .ok (Json.bool true) => true | _ => false
+      if noDefault && !tags.contains "no-empty-value" then tags := "no-empty-value" :: tags
       match parseTree (d + 1) before with
       | .error _ => pure ()
       | .ok tb =>
-        if wfB (d + 1) tb then
+        if wfB (d + 1) tb && !noDefault then
           let parsed ← (do
             match (← parseMutOp dflt opJ) with
             | some op => pure (some op)
